@@ -10,3 +10,4 @@ META = {
     "technique": 'Coq proof about the runahead specification + trace validation of every compute_runahead/release in real runs',
     "design_ref": "5/C04",
 }
+STREAMS.append(SchedStream('C04', name="sched-future", feat={'future': True, 'abs': True, 'max_fcp': 6}, n_quick=32, n_thorough=600))
